@@ -304,10 +304,14 @@ class Optic:
         if self.aperture.ap_type == 'EPD':
             self.aperture.value *= scale_factor
 
-        # Scale physical apertures
+        # Scale physical apertures (an aperture object carried by several
+        # surfaces is scaled once)
+        scaled = set()
         for surface in self.surface_group.surfaces:
-            if surface.aperture is not None:
+            if surface.aperture is not None and \
+                    id(surface.aperture) not in scaled:
                 surface.aperture.scale(scale_factor)
+                scaled.add(id(surface.aperture))
 
         # Scale decentres and the coefficients of non-conic sag terms: a term
         # c * x^p * y^q (a length) becomes c * s^(1 - p - q)
